@@ -312,6 +312,15 @@ class PredEval:
                 elif bool(self.truthy(v)) != pol:
                     feasible = False
                     break
+            # a loop over something this evaluator cannot enumerate runs an unknown number of times: neither the path that
+            # skips it nor the one that takes it once is known to be the one taken
+            for e in p.events:
+                if e[0] == "loop":
+                    itv = self.val(e[1], env0, depth + 1)
+                    if not (isinstance(itv, tuple) and not (itv and isinstance(itv[0], str))):
+                        unknown_guard = True
+                    elif (len(itv) == 0) != (e[2] == 0):
+                        feasible = False
             # try/except: a path that enters a handler is feasible only if the abandoned expression raises; a path
             # that completes an assignment is feasible only if its value does not raise
             evs = p.events
